@@ -337,6 +337,11 @@ func checkC01(c *mc.Ctx) {
 		{"rt-AB-p40", 40, setupAB, rtAlpha, depth},
 		{"rt-ABT-p3", 3, setupABT, rtAlpha, depth},
 	}
+	// deeper histories over the core operations (configuration changes between writes)
+	coreAlpha := []MOp{opAddB, opAddAuto, opRmA, opRmB, opPcrB, opTables, opDataA1, opDataAs1, opDataARAI, opDataB1, opDataAuto}
+	scens = append(scens,
+		scen{"rt-core-A-p2", 2, setupA, coreAlpha, depth + 2},
+		scen{"rt-core-AB-p3", 3, setupAB, coreAlpha, depth + 2})
 	for _, sc := range scens {
 		rad := mc.Radix{}
 		total := int64(0)
